@@ -176,6 +176,10 @@ def run(ctx):
                 teneva.rand([2, 2], 1, seed=None)
             if rep == 2:
                 RG.quiet(*[(f_, a_, k_) for f_, a_, k_ in [RG.CALLS['cross']()]][0][:1], *RG.CALLS['cross']()[1], **RG.CALLS['cross']()[2])
+            if rep > 0:
+                # disturb the heap: results must not depend on what freed memory happens to contain
+                junk = np.random.default_rng(rep).normal(size=200000) * 1e30
+                del junk
             f, a, k = build(name)
             if rep == 2 and 'seed' in k:
                 k = dict(k, seed=0)
